@@ -5,3 +5,4 @@ import RoModel.Ops.Transform
 import RoModel.Ops.Aggregate
 import RoModel.Render
 import RoModel.Driver
+import RoModel.Spec.Ops
